@@ -110,6 +110,17 @@ _poll_dispatch_and_take_back_(struct qb_loop_item *item,
 				   pe->ufd.revents,
 				   pe->item.user_data);
 	if (res < 0) {
+		if (pe->state != QB_POLL_ENTRY_DELETED) {
+			struct qb_poll_source *s =
+			    (struct qb_poll_source *)pe->item.source;
+			/*
+			 * The descriptor may well stay open: take it out of
+			 * the kernel's set too, as qb_loop_poll_del() does,
+			 * or it can never be added again and keeps being
+			 * reported with nobody to dispatch it to.
+			 */
+			(void)s->driver.del(s, pe, pe->ufd.fd, pe->install_pos);
+		}
 		_poll_entry_mark_deleted_(pe);
 	} else if (pe->state != QB_POLL_ENTRY_DELETED) {
 		pe->state = QB_POLL_ENTRY_ACTIVE;
